@@ -240,7 +240,7 @@ def h_frame(h):
 
     # ---- inputs per operation (all symbolic)
     if op in ("pdf", "cdf"):
-        arr("x", (2, nd), 0.3, 6.0)
+        arr("x", (2, nd), -1.0, 6.0)      # points below the support included
     if op in ("marginal_pdf", "marginal_cdf", "cond_eval"):
         arr("x1", (2,), 0.3, 6.0)
         arr("g1", (2,), 0.3, 3.0)
